@@ -18,25 +18,31 @@ VARIABLES scfg,   \* configuration (ndots, domains, nosearch ...)
           sqm     \* qid -> [t, idx]  wire queries of search requests
 
 sxvars == <<scfg, sr, sqm>>
-SInitS == scfg = [ndots |-> 1, domains |-> <<>>, nosearch |-> 0] /\ sr = <<>> /\ sqm = <<>>
+SInitS == scfg = [ndots |-> 1, domains |-> <<>>, nosearch |-> 0, noaliases |-> 1, hostaliases |-> 0] /\ sr = <<>> /\ sqm = <<>>
 
 (* a candidate: the text resolv.conf(5) prescribes, the name that goes on the wire for it (a trailing
    dot is not transmitted) and whether it is a single label (no dot at all in the text) *)
 Cand(txt, wire, single) == [txt |-> txt, wire |-> wire, single |-> single]
 CatDomain(name, d) == IF d = "." THEN Cand(name \o ".", name, FALSE) ELSE Cand(name \o "." \o d, name \o "." \o d, FALSE)
 AsIs(name, wname, dots) == Cand(name, wname, dots = 0)
-Candidates(name, wname, dots, enddot) ==
-  IF enddot = 1 \/ scfg.nosearch = 1 THEN <<AsIs(name, wname, dots)>>
+(* HOSTALIASES: a name without any dot that the alias file maps (compared case-insensitively) is replaced by its
+   target and not searched; the harness installs this fixed alias file when hostaliases = 1 *)
+AliasDb(lname) == CASE lname = "n1" -> "n1alias.target.test" [] lname = "n2" -> "n2up.target.test" [] OTHER -> ""
+AliasApplies(lname, dots) == scfg.noaliases = 0 /\ scfg.hostaliases = 1 /\ dots = 0 /\ AliasDb(lname) # ""
+Candidates(name, wname, lname, dots, enddot) ==
+  IF AliasApplies(lname, dots) THEN <<Cand(AliasDb(lname), AliasDb(lname), FALSE)>>
+  ELSE IF enddot = 1 \/ scfg.nosearch = 1 THEN <<AsIs(name, wname, dots)>>
   ELSE LET doms == [i \in 1..Len(scfg.domains) |-> CatDomain(name, scfg.domains[i])]
        IN IF dots >= scfg.ndots THEN <<AsIs(name, wname, dots)>> \o doms ELSE doms \o <<AsIs(name, wname, dots)>>
 
 (* a reference transcription of resolv.conf(5), written independently of Candidates; TLC cross-checks the two
    in SearchModel.tla *)
 RefFirstAsIs(dots) == dots >= scfg.ndots
-RefOk(name, wname, dots, enddot) ==
-  LET c == Candidates(name, wname, dots, enddot) IN
-  /\ ((enddot = 1 \/ scfg.nosearch = 1) => (Len(c) = 1 /\ c[1].txt = name /\ c[1].wire = wname))
-  /\ ((enddot = 0 /\ scfg.nosearch = 0) =>
+RefOk(name, wname, lname, dots, enddot) ==
+  LET c == Candidates(name, wname, lname, dots, enddot) IN
+  /\ (AliasApplies(lname, dots) => (Len(c) = 1 /\ c[1].wire = AliasDb(lname)))
+  /\ ((~AliasApplies(lname, dots) /\ (enddot = 1 \/ scfg.nosearch = 1)) => (Len(c) = 1 /\ c[1].txt = name /\ c[1].wire = wname))
+  /\ ((~AliasApplies(lname, dots) /\ enddot = 0 /\ scfg.nosearch = 0) =>
        /\ Len(c) = Len(scfg.domains) + 1
        /\ (RefFirstAsIs(dots) => c[1].txt = name)
        /\ (~RefFirstAsIs(dots) => c[Len(c)].txt = name)
